@@ -55,7 +55,12 @@ def cases(tier, seed):
                     continue
                 msize = place + w + ds + 3
                 data = rhex(rnd, ds)
-                ops = ["ps.init %d %02x %d %s %d %d %s" % (msize, rnd.choice([0, 0xff, 0xa5]), place, kind, init, ds, buf),
+                pre = []
+                if buf in ("1", str(ds)):
+                    # the same store in a window that ends with the 32-bit address space (last data octet at 0xffffffff)
+                    msize = place + w + ds
+                    pre = ["ps.relocate %d" % (2 ** 32 - msize)]
+                ops = pre + ["ps.init %d %02x %d %s %d %d %s" % (msize, rnd.choice([0, 0xff, 0xa5]), place, kind, init, ds, buf),
                        "ps.validate", "ps.store %s" % data, "ps.validate", "ps.fetch"]
                 # partial stores / fetches: every (offset, length) once in a while, sampled otherwise
                 pairs = [(o, l) for o in range(0, ds + 2) for l in range(0, ds + 2)]
